@@ -2287,3 +2287,10 @@ pub unsafe fn pairwise_complex_mul_conjugated<T: AvxNum>(
         }
     }
 }
+
+// Verification hook (add-only). Compiled only under `cargo kani` with `--cfg ejmahler_rustfft_verif`; a child module so that
+// the private accessor traits above are visible to the harnesses, which live outside this repository.
+#[cfg(all(kani, ejmahler_rustfft_verif))]
+mod verif_kani_avx_vector {
+    include!(concat!(env!("EJMAHLER_RUSTFFT_VERIF_DIR"), "/kani/harness_avx_vector.rs"));
+}
